@@ -585,6 +585,14 @@ futures = "0.3.25"
                     ff.append(t.rust if t.sized else "<%s as FlatUnsized>::AlignAs" % t.rust)
                 src.append("#[repr(C)] pub struct Twin_%s_%s(%s);\npub fn __ty_Twin_%s_%s(_: &Twin_%s_%s) {}\n" % (
                     d.name, vn, ", ".join("pub " + f for f in ff), d.name, vn, d.name, vn))
+    # portable scalar aliases (C16): marker per alias, the facts show what the alias resolves to
+    aliases = {}
+    for mod in ("le", "be"):
+        for n in ("U16", "U32", "U64", "I16", "I32", "I64", "F32", "F64"):
+            nm = "P_%s_%s" % (mod, n)
+            src.append("pub fn __ty_%s(_: &flatty::portable::%s::%s) {}\n" % (nm, mod, n))
+            aliases[nm] = {"mod": mod, "name": n, "be": mod == "be", "bytes": int(n[1:]) // 8, "float": n[0] == "F", "signed": n[0] == "I"}
+    src.append("pub fn __ty_P_Bool(_: &flatty::portable::Bool) {}\n")
     # IO instantiations
     src.append(IO_SRC)
     msgs = [n for n in ("UEa", "UEb", "UEd", "USa", "USe", "USh", "S8", "ESz", "K_FlatVec_u8__u16_", "K_FlatString_u16_")
@@ -592,8 +600,8 @@ futures = "0.3.25"
     for nm in msgs:
         X = types[nm].rust
         src.append("pub fn __root_recv__%s(g: flatty_io::blocking::RecvGuard<'_, %s, flatty_io::IoBuffer<DummyR>>) { "
-                   "r(flatty_io::Receiver::<%s, flatty_io::IoBuffer<DummyR>>::recv); r(flatty_io::Receiver::<%s, flatty_io::IoBuffer<DummyR>>::io); "
-                   "let _ = core::ops::Deref::deref(&g); drop(g); }\n" % (nm, X, X, X))
+                   "r(flatty_io::Receiver::<%s, flatty_io::IoBuffer<DummyR>>::recv); "
+                   "let _ = core::ops::Deref::deref(&g); drop(g); }\n" % (nm, X, X))
         src.append("pub fn __root_arecv__%s(g: flatty_io::async_::RecvGuard<'_, %s, flatty_io::IoBuffer<DummyAR>>) { "
                    "r(flatty_io::AsyncReceiver::<%s, flatty_io::IoBuffer<DummyAR>>::recv); "
                    "let _ = core::ops::Deref::deref(&g); drop(g); }\n" % (nm, X, X))
@@ -608,7 +616,17 @@ futures = "0.3.25"
                "r(<flatty_io::IoBuffer<DummyAR> as flatty_io::AsyncReadBuffer>::poll_read); "
                "r(<flatty_io::IoBuffer<DummyAW> as flatty_io::AsyncWriteBuffer>::poll_alloc); }\n")
     open(os.path.join(out, "src", "lib.rs"), "w").write("".join(src))
-    man = {"tier": tier, "types": man_types, "io_messages": msgs,
+    tys = {}
+
+    def collect(t):
+        if t.fname in tys:
+            return
+        tys[t.fname] = {"trivial": t.trivial, "comps": [c.fname for c in t.comps], "kind": t.kind, "sized": t.sized}
+        for c in t.comps:
+            collect(c)
+    for t in types.values():
+        collect(t)
+    man = {"tier": tier, "types": man_types, "io_messages": msgs, "tys": tys, "portable_aliases": aliases,
            "n_defs": len(defs), "n_containers": len(containers)}
     json.dump(man, open(os.path.join(out, "manifest.json"), "w"), indent=1)
 
